@@ -667,7 +667,7 @@ func (x *Exec) evalBinary(e *CE, env *Env) TV {
 func (x *Exec) seqEq(a, b SeqV, op string) *Term {
 	c := x.c
 	parts := []*Term{c.Eq(a.Off, b.Off), c.Eq(a.Len, b.Len)}
-	for k := range a.C {
+	for _, k := range sortedKeys(a.C) {
 		parts = append(parts, c.Eq(a.C[k], b.C[k]))
 	}
 	eq := c.And(parts...)
